@@ -355,6 +355,73 @@ def render_nested(idx, variant):
 """
 
 
+def render_zero_clauses(idx, recv, partial):
+    """A mock without any clause: a provided method whose body needs no required method still runs."""
+    decl = recv_decl(recv)
+    new = "Unimock::new_partial(())" if partial else "Unimock::new(())"
+    call = {"ref": "u.p(3)", "mut": "u.p(3)", "own": "u.clone().p(3)", "pin": "core::pin::Pin::new(&mut u).p(3)",
+            "rc": "std::rc::Rc::new(u.clone()).p(3)", "arc": "std::sync::Arc::new(u.clone()).p(3)"}[recv]
+    return f"""    #[unimock(api=Mk)]
+    pub trait Tr {{
+        fn r0(&self, x: u8) -> u64;
+        fn p({decl}, x: u8) -> u64 where Self: Sized {{
+            ev(format!("body:{{x}}"));
+            1000 + x as u64
+        }}
+    }}
+    pub fn run() -> Result<(), String> {{
+        let _ = take_events();
+        #[allow(unused_mut)]
+        let mut u = {new};
+        let got = vh::obs::catch(|| {call});
+        let events = take_events();
+        if got != Ok(1003) || events != vec!["body:3".to_string()] {{
+            return Err(format!("a mock without clauses: the provided method gave {{got:?}} (events {{events:?}}), its default body gives 1003"));
+        }}
+        vh::obs::catch(move || drop(u)).map_err(|m| format!("verification of a mock without clauses failed: {{m}}"))
+    }}
+"""
+
+
+def render_after_failure(idx, recv):
+    """A recorded failure does not stop later delegation: the temporary clones that Pin / Rc / Arc /
+    by-value delegation creates go away quietly, the body runs, the verdict carries the one error."""
+    decl = recv_decl(recv)
+    call = {"pin": "core::pin::Pin::new(&mut u).p(3)", "rc": "rc.clone().p(3)", "arc": "arc.clone().p(3)", "own": "u.clone().p(3)",
+            "ref": "u.p(3)", "mut": "u.p(3)"}[recv]
+    holder = {"rc": "let rc = std::rc::Rc::new(u.clone());", "arc": "let arc = std::sync::Arc::new(u.clone());"}.get(recv, "")
+    drop_holder = {"rc": "drop(rc);", "arc": "drop(arc);"}.get(recv, "")
+    return f"""    #[unimock(api=Mk)]
+    pub trait Tr {{
+        fn r0(&self, x: u8) -> u64;
+        fn p({decl}, x: u8) -> u64 where Self: Sized {{
+            self.r0(x) + 1
+        }}
+    }}
+    pub fn run() -> Result<(), String> {{
+        #[allow(unused_mut)]
+        let mut u = Unimock::new(Mk::r0.each_call(matching!(3)).returns(40u64));
+        {holder}
+        // a failing call, contained: recorded for the final verdict, nothing else
+        let first = vh::obs::catch(|| u.r0(9));
+        if !matches!(&first, Err(msg) if msg.contains("Tr::r0(9)")) {{
+            return Err(format!("harness: the preparatory failing call gave {{first:?}}"));
+        }}
+        for round in 0..2 {{
+            let got = vh::obs::catch(|| {call});
+            if got != Ok(41) {{
+                return Err(format!("round {{round}}: after a recorded failure the provided method gave {{got:?}}, its default body over the mock gives 41"));
+            }}
+        }}
+        {drop_holder}
+        match vh::obs::catch(move || drop(u)) {{
+            Err(msg) if msg.contains("Tr::r0(9)") && msg.matches("No matching call patterns").count() == 1 => Ok(()),
+            other => Err(format!("the final verdict must carry exactly the one recorded error, observed {{other:?}}")),
+        }}
+    }}
+"""
+
+
 def shapes(tier):
     out = []
     for recv, body, sig, clause, mode, order in itertools.product(RECVS, BODIES, ["simple", "rich"], ["implicit", "explicit"], ["strict", "partial"], ["unordered", "ordered"]):
@@ -386,6 +453,10 @@ def run(pid, tier, replay, start):
         for override in (True, False):
             k = f"assoc-items/{recv}/{'attribute-overrides-default-const' if override else 'default-const-kept'}"
             insts.append(Instance(len(insts), k, render_assoc(len(insts), recv, override), {"body": 1, "recv": recv}))
+    for recv in RECVS:
+        for partial in (False, True):
+            insts.append(Instance(len(insts), f"zero-clauses/{recv}/{'partial' if partial else 'strict'}", render_zero_clauses(len(insts), recv, partial), {"body": 1, "recv": recv}))
+        insts.append(Instance(len(insts), f"delegation-after-a-recorded-failure/{recv}", render_after_failure(len(insts), recv), {"body": 1, "recv": recv}))
     for variant in ("nested", "lent-handle"):
         insts.append(Instance(len(insts), f"delegation-in-delegation/{variant}", render_nested(len(insts), variant), {"body": 1, "recv": "ref"}))
     if replay:
